@@ -2,17 +2,22 @@ from props.common import run_all as run  # noqa: F401
 
 META = {'claimed': True,
  'title': 'Key material is wiped: finalised contexts zero, secrets cleared before free',
- 'level_text': 'proof at model level + observation of the binary: hashes: every field of the context returned by SHA256/SHA1/MD5_Final and the three HMAC finals is zero for every input context, in '
-               'the model instantiated with the regenerated constants (C20_*_final_zeroes_ctx). AES: the free functions are interpreters of the insecure_memzero/free call lists and size expressions '
-               "REGENERATED from crypto_aes.c / crypto_aes_aesni.c / crypto_aesctr.c; for every object content exactly one block of the object's size is released and all its bytes are 0 "
-               '(C20_key_free_aesni_zero, C20_key_free_sw_zero, C20_aesctr_free_zero) - a removed or mis-sized wipe breaks the theorem at the next run. DH: the program of blinded_modexp (fallible '
-               'steps, error labels, release ladder) is regenerated and interpreted under a failure oracle; secrecy is a taint from priv and blinding through the bignum operations; for EVERY failure '
-               'pattern every secret bignum is cleared when freed and every allocation is released exactly once (C20_dh_*_secrets_cleared). Key file: for every file content and every strdup failure '
-               "pattern the secret's memory is zero when freed and every block is released exactly once (C20_readkeys_*). 14 theorems. Whether the compiled -O2 code really performs the wipes "
-               '(insecure_memzero not elided) cannot be a statement about the model: the correspondence drivers wrap free / BN_clear_free / BN_free and inspect every byte of the real context objects '
-               'after Final and of every block at the moment it reaches the allocator, on success and on every injected failure path.',
- 'level_note': 'Trusted: Coq kernel; translators (x_hash.py, x_aes.py wipe lists, x_dhwipe.py program, x_readkeys.py); taint rules for OpenSSL bignum calls; the binary-level observation relies on '
-               "--wrap interposition at the real free; stack scratch arrays inside the hash functions are not part of the property's 'context object' and are not modelled. Print Assumptions: closed "
-               'under the global context.',
+ 'level_text': 'proof at model level + observation of the binary: hashes: the Final functions of the model contain no wipe of their own; the statements of SHA256/SHA1/MD5_Final, the three HMAC '
+               'finals and their _internal helpers, and the CTX struct layouts, are REGENERATED from alg/*.c and alg/*.h and interpreted (coq/Alg/HashWipe.v): a field is zero on return only if a '
+               'regenerated insecure_memzero whose object and sizeof text cover it, or an inner Final call on that sub-context, says so and nothing later touches it; for every input context every '
+               'field of the returned context is zero (C20_*_final_zeroes_ctx) and every leaf of the header layout is wiped (C20_*_final_wipes_whole) - a removed, mis-sized, conditional or misplaced '
+               'wipe breaks these at the next run. AES: the free functions are interpreters of the insecure_memzero/free call lists and size expressions REGENERATED from crypto_aes.c / '
+               "crypto_aes_aesni.c / crypto_aesctr.c; for every object content exactly one block of the object's size is released and all its bytes are 0 (C20_key_free_aesni_zero, "
+               'C20_key_free_sw_zero, C20_aesctr_free_zero) - a removed or mis-sized wipe breaks the theorem at the next run. DH: the program of blinded_modexp (fallible steps, error labels, release '
+               'ladder) is regenerated and interpreted under a failure oracle; secrecy is a taint from priv and blinding through the bignum operations; for EVERY failure pattern every secret bignum '
+               "is cleared when freed and every allocation is released exactly once (C20_dh_*_secrets_cleared). Key file: for every file content and every strdup failure pattern the secret's memory "
+               'is zero when freed and every block is released exactly once (C20_readkeys_*). 20 theorems. Whether the compiled -O2 code really performs the wipes (insecure_memzero not elided) '
+               'cannot be a statement about the model: the correspondence drivers wrap free / BN_clear_free / BN_free and inspect every byte of the real context objects after Final and of every '
+               'block at the moment it reaches the allocator, on success and on every injected failure path.',
+ 'level_note': 'Trusted: Coq kernel; translators (x_hash.py statement lists of the Final functions and struct layouts - the interpreter reads size TEXTS, sizeof(T) / sizeof(*ctx) only, and plain '
+               'call statements; x_aes.py wipe lists; x_dhdrbg.py program of blinded_modexp; x_readkeys.py); taint rules for OpenSSL bignum calls; the binary-level observation relies on --wrap '
+               "interposition at the real free; stack scratch arrays inside the hash functions are not part of the property's 'context object' and are not modelled; nor are stdio's FILE buffer and "
+               'the stack line buffer of aws_readkeys, or the blinding[] array of crypto_dh.c (only the first reaches the allocator, through fclose). Print Assumptions: closed under the global '
+               'context.',
  'trusted_base': ['wrapped free()/BN_free()/BN_clear_free() observers in the drivers', 'taint model of OpenSSL BN operations in coq/Crypto/DhWipeModel.v'],
  'assumptions': []}
